@@ -12,7 +12,7 @@ import container as C
 from sx import Sym
 
 RULE = ("exhaustive matrix: 8 public mutators (add_block, remove_block, replace_block, five setters) and 23 public readers (incl. "
-        "iterating the object completely and an iterator advanced once and kept suspended while later calls run) x 11 "
+        "iterating the object completely and an iterator advanced once and kept suspended while later calls run) x 13 "
         "access modes (no context; allow_write without context, before and after a first context; read-only context; write "
         "context; context re-entered after a write context; context left by an exception), plus seeded interleavings "
         "(length<=15) of allow_write/enter/exit/mutators/readers; observed per call: raised?, file sha-256 changed?, "
@@ -44,6 +44,9 @@ MODES = {
     "plain-context-after-a-nested-write-context-ended": ["enter", "allow", "enter", "exit"],
     "nested-plain-enter-inside-a-write-context": ["allow", "enter", "enter"],
     "after-both-exits-of-a-nested-pair": ["allow", "enter", "enter", "exit", "exit"],
+    # a write-enabled __enter__ interrupted (KeyboardInterrupt while the table is read), the interrupt caught by the caller
+    "after-an-interrupted-write-enabled-enter": ["allow", "enter-interrupted"],
+    "plain-context-after-an-interrupted-write-enabled-enter": ["allow", "enter-interrupted", "enter"],
 }
 
 
@@ -162,6 +165,34 @@ class Trace:
             self.entered_once = True
             self.entered_explicitly = True
             cmd = [Sym("mode.op"), Sym("enter")]
+        elif kind == "enter-interrupted":
+            # __enter__ cut short by a BaseException raised inside it (a KeyboardInterrupt arriving while the table is parsed):
+            # the caller catches it and goes on using the object. Injected at the k-th table entry read, if the library still
+            # reads entries through basictdf.basictdf.TdfEntry._build (otherwise the scenario degrades to a plain enter + exit)
+            import basictdf.basictdf as bb
+            orig = bb.TdfEntry._build
+            count = [0]
+            k = op[1]
+
+            def interrupting(*a, **kw):
+                count[0] += 1
+                if count[0] == k:
+                    raise KeyboardInterrupt()
+                return orig(*a, **kw)
+            bb.TdfEntry._build = staticmethod(interrupting)
+            try:
+                self.t.__enter__()
+                injected = False
+            except KeyboardInterrupt as e:
+                raised, injected = e, True
+            finally:
+                bb.TdfEntry._build = staticmethod(orig)
+            if injected:
+                self.in_ctx = self.in_write = self.armed = False
+                cmd = [Sym("mode.op"), Sym("enter-interrupted")]
+            else:                       # the hook was not reached: an ordinary context entry happened
+                self.in_ctx, self.in_write, self.entered_once, self.entered_explicitly = True, self.armed, True, True
+                cmd = [Sym("mode.op"), Sym("enter")]
         elif kind in ("exit", "exit-exc"):
             if kind == "exit":
                 self.t.__exit__(None, None, None)
@@ -236,7 +267,7 @@ def judge(ctx, tr, desc):
             ctx.fail(f"{desc} step {i} {o['op']}: a handle opened implicitly by a reader was left open", rep, ident="implicit handle left open")
             return
         # correspondence with the Lean mode machine
-        if o["kind"] in ("mut", "enter") and (o["raised"] is not None) != m_raised:
+        if o["kind"] in ("mut", "enter", "enter-interrupted") and (o["raised"] is not None) != m_raised:
             ctx.diff("mode.raised", f"{desc} step {i} {o['op']}: real raised={o['raised']} model raised={m_raised}", rep)
             return
         if o["changed"] != m_changed:
@@ -245,7 +276,10 @@ def judge(ctx, tr, desc):
         if o["kind"] == "mut" and o["changed"] and C.absfile(o["after"]) != C.absfile(m[5]):
             ctx.diff("mode.file", f"{desc} step {i} {o['op']}: file after a mutation in a write context differs from the model", rep)
             return
-        if o["closed"] is not None and o["kind"] in ("read", "exit", "exit-exc", "enter") and (o["closed"] is True) != (m_handle == -1):
+        if o["kind"] == "enter-interrupted" and o["closed"] is False and not o["ref_in_ctx"]:
+            ctx.fail(f"{desc} step {i} {o['op']}: an interrupted __enter__ left its handle open", rep, ident="handle left open by an interrupted enter")
+            return
+        if o["closed"] is not None and o["kind"] in ("read", "exit", "exit-exc", "enter", "enter-interrupted") and (o["closed"] is True) != (m_handle == -1):
             ctx.diff("mode.handle", f"{desc} step {i} {o['op']}: handler.closed={o['closed']} model handle={m_handle}", rep)
             return
 
@@ -286,7 +320,7 @@ def run(ctx):
             for mname in MUTATORS:
                 tr = Trace(start, wd, rng)
                 for p in prefix:
-                    tr.do((p,))
+                    tr.do((p, 2) if p == "enter-interrupted" else (p,))
                 cop, spec = mutator_op(rng, mname, present)
                 tr.do(("mut", cop, spec))
                 tr.do(("read", "has_events", True, False))
@@ -295,7 +329,7 @@ def run(ctx):
             for rname, impl, needs in READERS:
                 tr = Trace(start, wd, rng)
                 for p in prefix:
-                    tr.do((p,))
+                    tr.do((p, 2) if p == "enter-interrupted" else (p,))
                 tr.do(("read", rname, impl, needs))
                 tr.close()
                 traces.append((tr, f"matrix[{mode} x reader {rname}]", ("matrix-readers", mode)))
@@ -313,6 +347,8 @@ def run(ctx):
                         tr.do((rng.choice(["exit", "exit-exc"]),))
                     elif not tr.in_ctx and tr.entered_explicitly and rng.random() < 0.15:
                         tr.do(("exit",))            # the outer `with` of a nested pair ending after the inner one
+                    elif not tr.in_ctx and rng.random() < 0.15:
+                        tr.do(("enter-interrupted", rng.choice([1, 2, 5, 14])))
                     else:
                         tr.do(("enter",))           # (also while a context is open: nested `with` on one object)
                 elif r < 0.62:
